@@ -48,6 +48,7 @@ class Externals:
         self.module_attrs = {}     # (module, attr) -> Value factory
         self.class_ctors = {}      # class name -> impl(engine, ctx, args, kwargs)
         self.specials = []         # functions (engine, ctx, callnode) -> generator | None
+        self.obj_dynamic = {}      # obj class tag -> fn(engine, ctx, base, attr) -> Value | None
 
     def note(self, text):
         self.assumed.add(text)
@@ -121,6 +122,9 @@ class Externals:
         impl = self.obj_methods.get((tag, attr))
         if impl is not None:
             return Fn('builtin', name='%s.%s' % (tag, attr), impl=impl)
+        dyn = self.obj_dynamic.get(tag)
+        if dyn is not None:
+            return dyn(eng, ctx, base, attr)
         return None
 
     def obj_setattr(self, eng, ctx, base, attr, v):
@@ -408,7 +412,8 @@ class Externals:
             sv = c.st.get(*key)
             n = args.length()
             arr = eng.seq_to_sv(c, args, SeqT('V')).c['arr']
-            c.st = c.st.set('g', 'calls', sv.log_append({'fn': f.t, 'args': (n, arr)}))
+            r = smt.fresh('ret', V)
+            c.st = c.st.set('g', 'calls', sv.log_append({'fn': f.t, 'args': (n, arr), 'ret': r}))
             for cls in self.app_raises:
                 c2 = c.fork()
                 fields = {}
@@ -417,7 +422,6 @@ class Externals:
                 ex = Exc(cls, [], fields)
                 ex.from_app = True
                 yield c2, Raised(ex)
-            r = smt.fresh('ret', V)
             yield c, S(r)
 
     def callable_cond(self, eng, ctx, t):
@@ -694,6 +698,26 @@ def _random(eng, ctx, args, kwargs):
     ctx.assume(r >= 0, r < 1)
     eng.ext.note('random.random() returns a real in [0, 1)')
     yield ctx, S(r)
+
+
+@builtin('asyncio.iscoroutinefunction')
+def _iscorofn(eng, ctx, args, kwargs):
+    (x,) = args.items()
+    eng.ext.note('R2: a handler is called the same way whether or not asyncio.iscoroutinefunction() holds (await erased)')
+    if isinstance(x, S) and x.sort == 'V':
+        yield ctx, S(iscoro(x.t))
+    else:
+        yield ctx, S(z3.BoolVal(False))
+
+
+@builtin('asyncio.iscoroutine')
+def _iscoro(eng, ctx, args, kwargs):
+    (x,) = args.items()
+    eng.ext.note('R2: awaiting the result of a callback when asyncio.iscoroutine() holds has no further effect (await erased)')
+    if isinstance(x, S) and x.sort == 'V':
+        yield ctx, S(isawaitable(x.t))
+    else:
+        yield ctx, S(z3.BoolVal(False))
 
 
 @builtin('set')
